@@ -154,6 +154,7 @@ func cmdCheck(args []string) int {
 		}
 		fmt.Printf("replaying %s\n", name)
 	}
+	currentProp = *prop
 	t0 := time.Now()
 	seed := 0
 	if s := os.Getenv("VERIF_SEED"); s != "" {
